@@ -1,6 +1,8 @@
-"""C05 — per-thread results are invariant under interleaving of threads.  WINDOW-LEVEL HALF ONLY: the
-sequence of event windows delivered per thread.  (Rendered text and learned process names: added by the slice
-that owns Model/Context — see the header of lean/KdVerif/Props/C05.lean.)"""
+"""C05 — per-thread results are invariant under interleaving of threads.  Sections `interleave` /
+`interleave-real`: the sequence of event windows delivered per thread (Model/Pairing).  Section `names` (+ the
+finding-free side stream `names-shared-pids`): whole TracesParser (Model/Trace) — per-thread trace texts, the
+`pids_names` assignments tagged with the teaching thread, and the final `pids_names` under many schedules of
+programs holding new-thread / exec record pairs."""
 import json
 
 from .. import core
@@ -11,11 +13,19 @@ MODULE = 'KdVerif.Props.C05'
 NAMESPACE = 'KdVerif.C05'
 TRUSTED = ['Model/Pairing.step/run: hand model of TracesParser.feed/feed_generator up to parse_event_list, tied to '
            'the code by the correspondence sections `interleave` / `interleave-real` (and C04 `pairing`)',
-           'window-level half only: decoders and the learned-names tables are not modelled in this slice']
+           'Model/Trace.lean (whole TracesParser: handlers, context tables, generated decoders) tied to the code by the '
+           'section `names` here and by `pipeline` of C07/C08/C20; Model/TraceWrites.handleWrites is PROVED to be what the '
+           'handlers of Model/Trace do to the tables (handler_writes_sound, table_writes_sound)',
+           'bytes.decode() is a parameter of the model (strict UTF-8 in the driver)']
 ASSUMPTIONS = ['a window is attributed to the thread of its first event (all events of a delivered window have the '
                'same thread id: theorem window_single_thread)',
                'two merges are "interleavings of the same per-thread programs" iff their per-thread subsequences '
-               'coincide']
+               'coincide',
+               'feed_generator stops at the first exception: the text/names theorems are about runs that raise none, for '
+               'the merged history and for the thread\'s own subsequence (for non-excluded handlers the two raise alike)',
+               'exclusion (the property\'s own): the TEXT of TRACE_DATA_THREAD_TERMINATE and of the four dyld string readers '
+               '(DLSYM, DLOPEN, MAP_IMAGE, DLOPEN_PREFLIGHT) reads tables written by other threads and is not compared',
+               'final pids_names lookups agree when no pid is taught by two different threads (DisjointTeachers)']
 
 SCHEDULES = ['sequential', 'reverse', 'round-robin', 'round-robin-reverse', 'bursty', 'bursty2', 'random',
              'random2', 'longest-first', 'random3', 'random4', 'bursty3']
@@ -155,6 +165,253 @@ def make_oracle(impl_fn):
     return oracle
 
 
+# ---------------------------------------------------------------------------------------------------------
+# section `names`: whole TracesParser, learned names and per-thread texts under schedules
+# ---------------------------------------------------------------------------------------------------------
+
+EXCLUDED = {'TRACE_DATA_THREAD_TERMINATE', 'DBG_DYLD_TIMING_DLSYM', 'DBG_DYLD_TIMING_DLOPEN',
+            'DBG_DYLD_TIMING_MAP_IMAGE', 'DBG_DYLD_TIMING_DLOPEN_PREFLIGHT'}
+NAME_SCHEDULES = ['adversarial', 'sequential', 'reverse', 'round-robin-reverse', 'bursty', 'bursty2', 'random',
+                  'random2', 'longest-first', 'random3']
+
+
+def _pl():
+    from .. import pipeline as PL
+    return PL
+
+
+def name_program(rng, i, tid, shared_pids=False):
+    """One thread's program: complete operations; new-thread / exec pairs teach pids of the thread's own range
+    (main stream) or of a range shared by all threads (side stream)."""
+    PL = _pl()
+    s = PL.Stream(rng)
+    s.ts = 100000 * (i + 1)
+    base = 1 if shared_pids else 100 * (i + 1)
+    pids = list(range(base, base + 4))
+    for _ in range(rng.randrange(1, 6)):
+        k = rng.random()
+        if k < 0.40:
+            wd, ws = rng.choice([(True, True)] * 4 + [(True, False), (False, True)])
+            s.newthread(tid, rng.randrange(1000, 1010), rng.choice(pids), 'n%d_%d' % (i, rng.randrange(50)), wd, ws)
+        elif k < 0.60:
+            wd, ws = rng.choice([(True, True)] * 4 + [(True, False), (False, True)])
+            s.exec_(tid, rng.choice(pids), 'x%d_%d' % (i, rng.randrange(50)), wd, ws)
+        elif k < 0.70:
+            s.syscall('BSC_getpid', tid, [0, 0, 0, 0], [0, rng.randrange(1000), 0, 0])
+        elif k < 0.78:
+            s.syscall('BSC_open', tid, [1, 2, 3, 4], [0, 3, 0, 0], [('/p%d/%d' % (i, rng.randrange(99)), 7 + i)])
+        elif k < 0.84:
+            s.gstring(tid, rng.randrange(0, 4), 'g%d_%d' % (i, rng.randrange(9)))
+        elif k < 0.89:
+            s.threadname(tid, 'thr%d_%d' % (i, rng.randrange(9)))
+        elif k < 0.93:
+            s.sample(tid, 1, thd=(rng.choice(pids), rng.randrange(1000, 1010), 1))
+        elif k < 0.96:                      # excluded handler: text reads threads_pids / tids_names of all threads
+            s.ev('TRACE_DATA_THREAD_TERMINATE', PL.NONE, tid, [rng.choice([tid, 1000, 1001, 5, 6, 7]), 0, 0, 0])
+        else:                               # excluded handler: text reads global_strings of all threads
+            s.syscall('DBG_DYLD_TIMING_DLOPEN', tid, [0, rng.randrange(0, 4), 0, 0], [0, 0x1000, 0, 0])
+    return s.recs
+
+
+def names_case(programs, sched, kind, group, stream):
+    pos = [0] * len(programs)
+    recs = []
+    for i in sched:
+        recs.append(programs[i][1][pos[i]])
+        pos[i] += 1
+    PL = _pl()
+    allrecs = [bytes.fromhex(r) for _, p in programs for r in p]
+    codes = {str(k): v for k, v in PL.restricted_codes(allrecs, extra=('VFS_LOOKUP',)).items()}
+    return {'codes': codes, 'events': recs, 'style': kind, 'group': group, 'stream': stream,
+            'programs': [[t, list(p)] for t, p in programs]}
+
+
+def names_fixed():
+    """The 4-event adversarial schedule A-data, B-data, A-string, B-string (and all other schedules of the same two
+    programs), for new-thread pairs and for exec pairs; then a string without data record."""
+    PL = _pl()
+    out = []
+    for g, kind in enumerate(['newthread', 'exec', 'string-only', 'terminate-between', 'terminate-between-exec']):
+        progs = []
+        for i, (tid, pid, name) in enumerate([(5, 11, 'procA'), (6, 22, 'procB')]):
+            s = PL.Stream()
+            s.ts = 100000 * (i + 1)
+            if kind == 'newthread':
+                s.newthread(tid, 1000 + i, pid, name)
+            elif kind == 'exec':
+                s.exec_(tid, pid, name)
+            elif kind == 'string-only':
+                s.newthread(tid, 1000 + i, pid, name, with_data=(i == 0))
+            elif i == 0:                 # thread A announces a process ...
+                if kind == 'terminate-between':
+                    s.newthread(tid, 1000, pid, name)
+                else:
+                    s.exec_(tid, pid, name)
+            else:                        # ... thread B reports the end of thread A (named in the record's ARGUMENT)
+                s.ev('TRACE_DATA_THREAD_TERMINATE', PL.NONE, tid, [5, 0, 0, 0])
+            progs.append([tid, [r.hex() for r in s.recs]])
+        lens = [len(p) for _, p in progs]
+        import random
+        r = random.Random(g)
+        for k in NAME_SCHEDULES:
+            sk = 'round-robin' if k == 'adversarial' else k
+            out.append(names_case(progs, schedule(r, sk, lens), k, 'nfixed%d' % g, 'main'))
+    return out
+
+
+def names_group(rng, group, nsched, shared=False):
+    nt = rng.randint(2, 3)
+    tids = rng.sample([5, 6, 7, 99, 1000, 1001], nt)
+    programs = [[t, [r.hex() for r in name_program(rng, i, t, shared)]] for i, t in enumerate(tids)]
+    lens = [len(p) for _, p in programs]
+    out = []
+    for k in NAME_SCHEDULES[:nsched]:
+        sk = 'round-robin' if k == 'adversarial' else k
+        out.append(names_case(programs, schedule(rng, sk, lens), k, group, 'shared' if shared else 'main'))
+    return out
+
+
+def names_line(case):
+    PL = _pl()
+    codes = {int(k): v for k, v in case['codes'].items()}
+    return 'tracesw %s %s' % (PL.codes_arg(codes), ' '.join(case['events']))
+
+
+class RecordingDict(dict):
+    """`pids_names` handed to the real TracesParser: logs every assignment with the thread being fed."""
+
+    def __init__(self):
+        super().__init__()
+        self.log = []
+        self.current = None
+
+    def __setitem__(self, k, v):
+        self.log.append((self.current, k, v))
+        super().__setitem__(k, v)
+
+
+def names_run(case):
+    """The real TracesParser on the merged stream; the answer of `tracesw`."""
+    PL = _pl()
+    from pykdebugparser.kevent import from_kd_buf
+    from pykdebugparser.traces_parser import TracesParser
+    codes = {int(k): v for k, v in case['codes'].items()}
+    pn = RecordingDict()
+    parser = TracesParser(codes, {}, pn)
+    outs, err = [], '-'
+    try:
+        for e in (from_kd_buf(bytes.fromhex(h)) for h in case['events']):
+            pn.current = e.tid
+            t = parser.feed(e)
+            if t is None:
+                continue
+            try:
+                txt = core.hs(str(t))
+            except Exception as ex:
+                txt = '!' + core.err_name(ex)
+            outs.append({'name': codes.get(t.ktraces[0].eventid, '?'), 'ts': [k.timestamp for k in t.ktraces], 'text': txt,
+                         'extra': PL.extra_of(t)})
+    except Exception as ex:
+        err = core.err_name(ex)
+    tw = ','.join('%d:%d:%s' % (t, k, core.hs(v)) for t, k, v in pn.log) or '-'
+    return PL.answer(outs, err, parser) + ' ;tw=' + tw
+
+
+def names_impl(case):
+    return names_run(case)
+
+
+def names_view(case, ans):
+    """Per thread: (name, ts, text-or-None-when-excluded, payload) of its traces and its tagged name writes; the final
+    pids_names; the aborting exception."""
+    PL = _pl()
+    traces, err, tabs = PL.parse_answer(ans)
+    owner = {}
+    for tid, prog in case['programs']:
+        for r in prog:
+            owner[int.from_bytes(bytes.fromhex(r)[:8], 'little')] = tid
+    per = {}
+    for t in traces:
+        tid = owner.get(t['ts'][0]) if t['ts'] else None
+        per.setdefault(tid, []).append((t['name'], tuple(t['ts']), None if t['name'] in EXCLUDED else t['raw'], t['extra']))
+    taught = {}
+    if tabs.get('tw', '-') != '-':
+        for item in tabs['tw'].split(','):
+            t, k, v = item.split(':')
+            taught.setdefault(int(t), []).append((int(k), v))
+    return per, taught, tabs.get('pn', '-'), err
+
+
+_names_cache = {}
+
+
+def names_oracle(case, got):
+    if not got.startswith('ok '):
+        return ('names:raises', 'the harness could not run the merged history: ' + got)
+    per, taught, pn, err = names_view(case, got)
+    if err != '-':
+        return ('names:stream-aborted', 'feeding the merged history (schedule %s) raised %s' % (case['style'], err))
+    key = case['group']
+    if _names_cache.get('key') != key:
+        _names_cache.clear()
+        _names_cache['key'] = key
+        lens = [len(p) for _, p in case['programs']]
+        seq = names_case(case['programs'], schedule(None, 'sequential', lens), 'sequential', key, case['stream'])
+        _names_cache['seq'] = names_view(seq, names_run(seq))
+        alone = {}
+        for i, (tid, prog) in enumerate(case['programs']):
+            if prog:
+                c = names_case(case['programs'], [i] * len(prog), 'alone', key, case['stream'])
+                alone[tid] = names_view(c, names_run(c))
+        _names_cache['alone'] = alone
+    sper, staught, spn, serr = _names_cache['seq']
+    for tid, (aper, ataught, apn, aerr) in _names_cache['alone'].items():
+        if aerr != '-':
+            return ('names:stream-aborted', 'thread %d parsed alone raises %s' % (tid, aerr))
+        if taught.get(tid, []) != ataught.get(tid, []):
+            return ('names:learned-names-depend-on-other-threads',
+                    'schedule %s: thread %d teaches %r, parsed alone it teaches %r'
+                    % (case['style'], tid, taught.get(tid, []), ataught.get(tid, [])))
+        if per.get(tid, []) != aper.get(tid, []):
+            return ('names:thread-traces-depend-on-other-threads',
+                    'schedule %s: traces of thread %d are %r, parsed alone %r'
+                    % (case['style'], tid, per.get(tid, []), aper.get(tid, [])))
+    if set(taught) - set(t for t, _ in case['programs']):
+        return ('names:foreign-teacher', 'a name was taught while feeding an event of no program: %r' % taught)
+    if case['stream'] == 'main' and pn != spn:
+        return ('names:final-pids-names-depend-on-schedule',
+                'schedule %s ends with pids_names %s, the sequential order with %s' % (case['style'], pn, spn))
+    return None
+
+
+NAMES_RULE = ('3 hand-written two-thread program sets (new-thread pairs, exec pairs, a name string without data record) — '
+              'the first case is the 4-event adversarial schedule A-data, B-data, A-string, B-string — plus seeded sets of '
+              '2-3 threads, each program holding new-thread / exec pairs (data + string, sometimes only one of them; pids of '
+              'the thread\'s own range), syscalls with lookups, global strings, thread names, sampler windows, thread-terminate '
+              'and dlopen records (the excluded handlers), merged under adversarial (round-robin), sequential, reverse, '
+              'bursty, longest-first and random schedules; real TracesParser with a recording pids_names dict; compared with '
+              'the Lean model: every trace (name, ktraces, text, payload), the four tables and the pids_names assignments '
+              'tagged with the feeding thread; oracle: per-thread traces/texts and per-thread taught sequences equal those of '
+              'the thread parsed alone, final pids_names equal to the sequential run')
+
+
+def names_section(rep, rng, tier):
+    ns = 8 if tier == 'quick' else len(NAME_SCHEDULES)
+    ng = 150 if tier == 'quick' else 2500
+    cases = names_fixed() + [c for g in range(ng) for c in names_group(rng, 'n%d' % g, ns)]
+    nontriv = lambda c, got: c['style'] != 'sequential' and ';tw=-' not in got  # noqa: E731
+    run_section(rep, 'names', cases, line_fn=names_line, impl_fn=names_impl, oracle_fn=names_oracle,
+                nontrivial_fn=nontriv, kind_fn=lambda c, got: c['style'], rule=NAMES_RULE,
+                skip_fn=lambda m: 'err=Unmodelled' in m)
+    ng2 = 40 if tier == 'quick' else 600
+    shared = [c for g in range(ng2) for c in names_group(rng, 's%d' % g, ns, shared=True)]
+    run_section(rep, 'names-shared-pids', shared, line_fn=names_line, impl_fn=names_impl, oracle_fn=names_oracle,
+                nontrivial_fn=nontriv, kind_fn=lambda c, got: c['style'],
+                rule='the same with all threads teaching pids of ONE shared range: per-thread traces and taught sequences '
+                     'are still compared (the final pids_names legitimately depends on the schedule here and is not)',
+                skip_fn=lambda m: 'err=Unmodelled' in m)
+
+
 impl_stub = make_impl(lambda case: (lambda: P.stub_parser(case)))
 impl_real = make_impl(lambda case: P.real_parser)
 SECTIONS = {'interleave': impl_stub, 'interleave-real': impl_real}
@@ -205,6 +462,7 @@ def correspondence(rep, rng, tier):
                      'TRACE_STRING_PROC_EXIT, one undecoded name and one unknown id (trace.ktraces compared)')
     model_groups_agree(rep, 'interleave-real', rcases)
     P.shrink_failures(rep, 'interleave-real', impl_real, make_oracle(impl_real), lambda c: P.line('pairt', c))
+    names_section(rep, rng, tier)
 
 
 def replay(path):
@@ -215,6 +473,8 @@ def replay(path):
         print('nothing to replay (no failing input was recorded):', r.get('no_longer_checks'))
         return 1
     case, sec = rp['case'], rp.get('section', 'interleave')
+    if sec.startswith('names'):
+        return replay_names(case, path)
     impl_fn = SECTIONS[sec]
     try:
         got = impl_fn(case)
@@ -240,11 +500,43 @@ def replay(path):
     return 0
 
 
+def replay_names(case, path):
+    from pykdebugparser.kevent import from_kd_buf
+    codes = {int(k): v for k, v in case['codes'].items()}
+    got = names_impl(case)
+    model = core.drive([names_line(case)])[0]
+    print('merged history, schedule %s:' % case['style'])
+    for h in case['events']:
+        e = from_kd_buf(bytes.fromhex(h))
+        print('   ts=%d tid=%d %s q=%d args=%s' % (e.timestamp, e.tid, codes.get(e.eventid, hex(e.eventid)), e.func_qualifier,
+                                                    list(e.values)))
+    print('impl :', got)
+    print('model:', model)
+    _names_cache.clear()
+    res = names_oracle(case, got)
+    if res:
+        print('oracle:', res[0], '-', res[1])
+        print(f'VIOLATION property=C05 replay={path}')
+        return 1
+    print('oracle: property holds on this input')
+    return 0
+
+
 LEVEL_TEXT = ('Window-level half: Lean theorems for ALL histories and threads — step_other_thread_frame (a step '
               'touches only entries of the event\'s thread), projection_windows (the windows of thread t in a merged '
               'history are the windows of t\'s own subsequence) and interleaving_invariant_windows (equal per-thread '
               'subsequences give equal per-thread window sequences); model tied to the code by differential runs over '
-              'many schedules of the same per-thread programs.')
-LEVEL_NOTE = ('Trusted: Lean kernel; hand model of feed (Model/Pairing) tied by correspondence.  The rendered-text and '
-              'learned-names half of C05 is not covered by this module.')
+              'many schedules of the same per-thread programs.  Text and names half, over the whole-TracesParser model: '
+              'handler_writes_sound / table_writes_sound (the listed table assignments are what the handlers do), '
+              'thread_writes_per_thread and learned_names_per_thread (the assignments caused by thread t are a function of '
+              't\'s own subsequence), projection_traces / projection_traces_exact (per-thread traces with text), '
+              'interleaving_invariant_names (same taught sequences per thread, same multiset, same final lookups when '
+              'teachers are disjoint), excluded_generated_exact (reflective: which generated decoders are excluded), noexc_own / '
+              'per_thread_of_merged_run (no exception in the merged run implies none in a thread\'s own run; reflective '
+              'all_fields_errFree), bundled_nested_rows.')
+LEVEL_NOTE = ('Trusted: Lean kernel; hand models of feed (Model/Pairing) and of the handlers (Model/Trace) tied by '
+              'correspondence; the translator for the generated decoders.  The text/names theorems are about runs that raise no '
+              'exception (feed_generator aborts on the first one) and about code tables that name no table-writing / excluded '
+              'handler for the page-fault sub-record ids parsed by the nested parse_event_list call (BenignNested; true of '
+              'the bundled table).')
 TECHNIQUE = 'Lean 4 frame/projection proof + differential correspondence over schedules'
